@@ -80,6 +80,8 @@ pub struct Model<'p> {
     pub verified_without_exec: u64,
     pub c03_judged: u64,
     pub check_c03: bool,
+    /// see `RunCfg::no_values`
+    pub no_values: bool,
     /// nodes at or below a member of an unordered dependency group
     pub unord_below: HashSet<u32>,
 }
@@ -161,6 +163,7 @@ impl<'p> Model<'p> {
             verified_without_exec: 0,
             c03_judged: 0,
             check_c03: true,
+            no_values: false,
             unord_below: unord_below(prog),
         }
     }
@@ -491,6 +494,9 @@ impl<'p> Model<'p> {
     }
 
     fn serve_inner(&mut self, n: u32, val: &Val, ctx: &str) -> Result<(), Failure> {
+        if self.no_values {
+            return Ok(());
+        }
         let old = !self.cyclic && self.last_exec(n).is_some_and(|r| r.epoch < self.epoch);
         if self.cyclic && self.ambiguous && !self.static_acyclic(n) {
             // order-dependent membership: only termination is claimed here
@@ -697,7 +703,7 @@ fn unord_below(prog: &Program) -> HashSet<u32> {
         match e {
             Expr::Unord(v) => out.extend(v.iter().copied()),
             Expr::Const(_) | Expr::Read(_) | Expr::Join(_) => {}
-            Expr::Idx(a, _) | Expr::Mul(a, _) | Expr::Mod(a, _) => groups(a, out),
+            Expr::Idx(a, _) | Expr::Mul(a, _) | Expr::Mod(a, _) | Expr::Race(_, a) => groups(a, out),
             Expr::Add(a, b) | Expr::Min(a, b) | Expr::Cat(a, b) => {
                 groups(a, out);
                 groups(b, out);
